@@ -211,7 +211,7 @@ lazy_static! {
 [\ ]
 \(                 # open ( which the previous file name may not contain in case a name does (which is more likely)
 (
-    [^\ ](?:.*?[^\ ])?  # author name (possibly a single character), up to the first timestamp
+    [^\ ](?:.*?[^\ ])?? # author name (possibly a single character), up to the first timestamp
 )
 [\ ]+
 (                  # timestamp
